@@ -386,6 +386,15 @@ func (self *Analyzer) importItem(node pAst.ImportStatement) ast.AnalyzedImport {
 
 		module, alreadyAnalyzed := self.modules[node.FromModule.Ident()]
 
+		// a module which imports itself is a cycle of length one: the graph check below never sees it
+		if node.FromModule.Ident() == self.currentModuleName {
+			self.error(
+				fmt.Sprintf("Illegal cyclic import: module %s -> %s", self.currentModuleName, self.currentModuleName),
+				nil,
+				node.Span(),
+			)
+		}
+
 		if !alreadyAnalyzed {
 			self.analyzeModule(node.FromModule.Ident(), parsed, true)
 
